@@ -35,7 +35,7 @@ def canon(case) -> str:
 
 
 def digest(case) -> bytes:
-    return hashlib.sha1(canon(case).encode("utf-8")).digest()[:10]
+    return hashlib.sha1(canon(case).encode("utf-8", "surrogatepass")).digest()[:10]
 
 
 @dataclass
